@@ -3,6 +3,7 @@ package main
 import (
 	"context"
 	"fmt"
+	"os"
 	"runtime/debug"
 	"sort"
 	"strconv"
@@ -159,7 +160,7 @@ func runScnWeights(kv map[string]string) string {
 	if !ok {
 		return "BADINPUT"
 	}
-	if weightsTooBig(ws) {
+	if weightsTooBig(ws) && os.Getenv("C13_IN_CHILD") != "1" {
 		return "oom-guard"
 	}
 	p, obs := scnCtor(kv["kind"], kv["fmt"], []byte(renderWeighted(kv["kind"], kv["fmt"], ws)))
@@ -280,7 +281,7 @@ func runRandString(kv map[string]string) (obs string) {
 	if !ok {
 		return "BADINPUT"
 	}
-	if randStringTooBig(kv) {
+	if randStringTooBig(kv) && os.Getenv("C13_IN_CHILD") != "1" {
 		return "oom-guard"
 	}
 	if kv["via"] == "vs" {
